@@ -260,7 +260,16 @@ def show_kymo(k):
         rs = "[" + ",".join(f"{int(a)}:{int(b)}" for a, b in k.line_timestamp_ranges()) + "]"
     except NotImplementedError:
         rs = "undefined"
-    unit = {"um": 0, "kbp": 1, "pixel": 2}[k._calibration.unit]
+    # calibration unit and position offset are private bookkeeping (used by plotting / tracking): observed while they
+    # exist under these names, skipped ("?") when a refactor has moved them — the property does not mention them
+    try:
+        unit = {"um": 0, "kbp": 1, "pixel": 2}[k._calibration.unit]
+    except (AttributeError, KeyError):
+        unit = "?"
+    try:
+        offset = enc_rat(float(k._position_offset))
+    except AttributeError:
+        offset = "?"
     pxum = k.pixelsize_um[0]
     try:
         pt = enc_rat(float(k.pixel_time_seconds))
@@ -269,7 +278,7 @@ def show_kymo(k):
     return (
         f"view img=[{rows}] ranges={rs} px={enc_rat(float(k.pixelsize[0]))} unit={unit} "
         f"pxum={'N' if pxum is None else enc_rat(float(pxum))} linetime={enc_rat(float(k.line_time_seconds))} "
-        f"ppl={int(k.pixels_per_line)} offset={enc_rat(float(k._position_offset))} absent={absent_shape(k.get_image('green'))} pt={pt}"
+        f"ppl={int(k.pixels_per_line)} offset={offset} absent={absent_shape(k.get_image('green'))} pt={pt}"
     )
 
 
@@ -355,6 +364,8 @@ def agree(case, i, ia, ma):
             b = Fraction(fm[k])
             if abs(a - b) > Fraction(1, 10**6) * max(abs(b), 1):
                 return False
+        elif fi[k] == "?":
+            continue  # private bookkeeping that is no longer reachable under its old name: not compared
         elif k in ("px", "pxum", "offset"):
             if fi[k] == "N" or fm[k] == "N":
                 if fi[k] != fm[k]:
